@@ -29,6 +29,11 @@ CVRP_UPDATE_STALE = '''        td.set("action_mask", self.get_action_mask(td))
 
 CORPUS = [
     # ---------------------------------------------------------------- C01
+    V("C01", "atsp-mask-sized-from-config", "rl4co/envs/routing/atsp/env.py", '(*batch_size, cost_matrix.shape[-1])', '(*batch_size, self.generator.num_loc)', 'C01.x'),
+    V("C01", "mtsp-mask-sized-from-config", "rl4co/envs/routing/mtsp/env.py", '(*batch_size, td["locs"].shape[-2])', '(*batch_size, self.generator.num_loc)', 'C01.x'),
+    V("C01", "pctsp-visited-sized-from-config", "rl4co/envs/routing/pctsp/env.py", '(*batch_size, locs.shape[-2])', '(*batch_size, self.generator.num_loc + 1)', 'C01.x'),
+    V("C01", "pdp-mask-sized-from-config", "rl4co/envs/routing/pdp/env.py", '(*batch_size, num_loc + 1), dtype=torch.bool', '(*batch_size, self.generator.num_loc + 1), dtype=torch.bool', 'C01.x'),
+    V("C01", "eq-atsp-mask-size-method", "rl4co/envs/routing/atsp/env.py", '(*batch_size, cost_matrix.shape[-1])', '(*batch_size, cost_matrix.size(-1))', None),
     V("C01", "cvrptw-service-inside-max", "rl4co/envs/routing/cvrptw/env.py", 'torch.max(td["current_time"] + distance, start_times) + duration', 'torch.max(td["current_time"] + distance + duration, start_times)', 'C01.t'),
     V("C01", "cvrptw-service-dropped", "rl4co/envs/routing/cvrptw/env.py", 'torch.max(td["current_time"] + distance, start_times) + duration', 'torch.max(td["current_time"] + distance, start_times)', 'C01.t'),
     V("C01", "mtvrp-service-inside-max", "rl4co/envs/routing/mtvrp/env.py", '            torch.max(td["current_time"] + distance / td["speed"], start_times)\n            + service_time', '            torch.max(td["current_time"] + distance / td["speed"] + service_time, start_times)', 'C01.t'),
@@ -314,6 +319,7 @@ CORPUS += [
 FJ_ = S_ + "fjsp/env.py"
 CORPUS += [
     # ---------------------------------------------------------------- C07
+    V("C07", "smtwtp-mask-sized-from-config", "rl4co/envs/scheduling/smtwtp/env.py", '(*batch_size, init_job_due_time.shape[-1])', '(*batch_size, self.generator.num_job + 1)', 'C07.i'),
     V("C07", "ffsp-stage-index-as-machine", "rl4co/envs/scheduling/ffsp/env.py", 'new_machine_idx = self.tables.get_machine_index(idx, new_sub_time_idx)', 'new_machine_idx = self.tables.get_stage_machine_index(idx, new_sub_time_idx)', 'C07.h'),
     V("C07", "ffsp-machine-index-as-stage-machine", "rl4co/envs/scheduling/ffsp/env.py", 'self.tables.get_stage_machine_index(batch_idx, sub_time_idx)', 'self.tables.get_machine_index(batch_idx, sub_time_idx)', 'C07.h'),
     V("C07", "fjsp-busy-until-wrong-proc-time", FJ_, 'td["busy_until"][batch_idx, selected_machine] = td["time"] + proc_time_of_action', 'td["busy_until"][batch_idx, selected_machine] = td["time"] + td["proc_times"][batch_idx, selected_machine].max(-1).values', "C07.b"),
